@@ -15,12 +15,12 @@ func init() {
 }
 
 func checkC18(r *Run) {
-	r.Rule("R1", "whitespace: the skipper's set is exactly {space, tab, \\n, \\r} and skipping is the first action of the inside-tag token function", 2)
-	r.Rule("R2", "line comments: '#' consumes up to the line end or end of input, every comment in a run is skipped (recursion or loop), and the next token is returned without further cursor movement; no other arm re-lexes", 2)
-	r.Rule("R3", "tag boundaries: '%>' always yields E_END and leaves code mode; the block parser skips S_START and E_END, the statement parser skips S_START, the program loop drops blank statements", 5)
-	r.Rule("R4", "cursor post-condition: every block-bearing parse function (if, else-if, for, fn, call with block) returns with the token cursor on the closing brace of its last block", 5)
-	r.Rule("R5", "the statement parsers agree on consuming one optional trailing ';'", 4)
-	r.Rule("R6", "node identity: the evaluator keeps no table keyed by a token, a line number or source text (a token has no column: two nodes on one line would share an entry)", 3)
+	r.Rule("R1", "whitespace: the skipper's set is exactly {space, tab, \\n, \\r} and skipping is the first action of the inside-tag token function", 1)
+	r.Rule("R2", "line comments: '#' consumes up to the line end or end of input, every comment in a run is skipped (recursion or loop), and the next token is returned without further cursor movement; no other arm re-lexes", 1)
+	r.Rule("R3", "tag boundaries: '%>' always yields E_END and leaves code mode; the block parser skips S_START and E_END, the statement parser skips S_START, the program loop drops blank statements", 1)
+	r.Rule("R4", "cursor post-condition: every block-bearing parse function (if, else-if, for, fn, call with block) returns with the token cursor on the closing brace of its last block", 1)
+	r.Rule("R5", "the statement parsers agree on consuming one optional trailing ';'", 1)
+	r.Rule("R6", "node identity: the evaluator keeps no table keyed by a token, a line number or source text (a token has no column: two nodes on one line would share an entry)", 1)
 	evaluatorTablesRule(r, "R6")
 	lx := analyseLexerArms(r.W)
 	whitespaceRuleSSA(r, "R1")
